@@ -112,7 +112,7 @@ let parse_op (s : mesh) (toks : string list) : op * string =
   | "EnFBU", [b] -> (EnableFBU (b = "1"), "EnFBU " ^ b)
   | "EnDef", [b] -> (EnableDeferred (b = "1"), "EnDef " ^ b)
   | "EnFast", [b] -> (EnableFast (b = "1"), "EnFast " ^ b)
-  | "PCreate", [k; d] -> (PropCreate (kind_of_string k, z_of_int (int_of_string d)), "PCreate " ^ k ^ " " ^ d)
+  | "PCreate", k :: d :: _ -> (PropCreate (kind_of_string k, z_of_int (int_of_string d)), "PCreate " ^ k ^ " " ^ d)
   | "PSet", [k; p; i; v] ->
       let kd = kind_of_string k in
       let ps = props kd s in
